@@ -3,7 +3,7 @@ import core, lib
 from core import call_matches, op_place, backward_slice
 from props import shared
 
-LEVEL = 'proof'
+LEVEL = 'other'
 FLOOR = 34      # 70% of the 49 obligation instances derived on the tree the rules were last reviewed against
 EXPLANATION = ('Drop for Db runs shutdown -> join x4 -> kill_logs -> unlock; kill_logs (no background error) drains: enact, flush, process all '
                'commits, enact, flush, enact, flush columns + truncate, delete pool; every drain loop exits only when its callee reports no more work; '
@@ -87,4 +87,13 @@ def run(ctx):
     shared.more_work_signal(ctx, '7')
     shared.sync_before_handover(ctx, '6')
     shared.replay_order(ctx, '5')
-    shared.deferral_keeps_commit_order(ctx, '8')    # 'reopening returns every commit, in order': the log holds them in commit order
+    shared.deferral_keeps_commit_order(ctx, '8')
+    # ... and what does wait - the removal of a tree whose reader is locked - keeps its place in the order in which commits reach the
+    # log: it is held back at the FRONT of the queue (the log worker backs off), or an intent record marks its place. Re-queued at the
+    # back, commits accepted after it are logged and synced first; a crash then keeps the later commit and loses the earlier one (F59)
+    pc = ctx.body('db::DbInner::process_commits')
+    if pc:
+        back = [x for x in lib.field_effect_sites(pc, ['re:VecDeque.*::push_back$'], '.CommitQueue.commits')]
+        ctx.ob('8y postponed-removal-keeps-its-place-in-the-log-order', 'K2-order', pc.path,
+               'the log worker never puts (part of) a commit it has taken off the queue behind commits that were accepted later', not back,
+               'a deferred removal is pushed onto the back of the commit queue (under a new id): later commits reach the log before it')    # 'reopening returns every commit, in order': the log holds them in commit order
